@@ -117,7 +117,7 @@ Init == /\ stack = <<>> /\ marks = [und |-> 0, rst |-> 0, probe |-> 0]
                 /\ hist = InitHist(n, live)
 
 \* wide configurations: blocks start from sparse states only
-WideOK == InitLive >= 99 \/ Cardinality(live) <= InitLive
+WideOK == IF InitLive >= 99 THEN TRUE ELSE Cardinality(live) <= InitLive   \* (no disjunction: TLC would split the action)
 
 Push(rec) == IF MaxStack = 0 THEN <<>>
              ELSE SubSeq(<<rec>> \o stack, 1, IF Len(stack) + 1 > MaxStack THEN MaxStack ELSE Len(stack) + 1)
